@@ -93,6 +93,7 @@ type memdb struct {
 	ids        []uint64          // sorted list of body ids
 	fields     map[string]int64  // list of all fields and their counts for HEAD
 	fieldTimes map[string]string // timestamp of last update for each field in HEAD
+	staleTimes bool              // true if fieldTimes may hold a timestamp that no annotation carries any more
 	headV      dvid.VersionID    // for a branch HEAD db, the version whose content it holds (0 if not loaded)
 	mu         sync.RWMutex
 }
@@ -173,6 +174,35 @@ func (d *Data) initMemoryDB(versions []string) error {
 	d.dbs = dbs
 	d.dbsMu.Unlock()
 	return nil
+}
+
+// updateFieldTimes adjusts the cached field timestamps when the annotation of a body id changes
+// from old to updated (either can be nil).  A field's timestamp is the latest one carried by any
+// annotation, so a newer stamp is taken immediately while the loss of the annotation that carried
+// the latest stamp only marks the cache for recomputation.  Caller must hold mdb.mu for writing.
+func (mdb *memdb) updateFieldTimes(old, updated NeuronJSON) {
+	for field, value := range old {
+		if !strings.HasSuffix(field, "_time") {
+			continue
+		}
+		timestamp, isString := value.(string)
+		if !isString || timestamp != mdb.fieldTimes[field[:len(field)-5]] {
+			continue
+		}
+		if newstamp, isString := updated[field].(string); !isString || newstamp < timestamp {
+			mdb.staleTimes = true
+		}
+	}
+	for field, value := range updated {
+		if strings.HasSuffix(field, "_time") {
+			rootField := field[:len(field)-5]
+			if timestamp, isString := value.(string); isString {
+				if cur, found := mdb.fieldTimes[rootField]; !found || timestamp > cur {
+					mdb.fieldTimes[rootField] = timestamp
+				}
+			}
+		}
+	}
 }
 
 // initialize the fieldTimes map for an already loaded memdb.
